@@ -12,7 +12,7 @@ import (
 func init() {
 	register("C20", PropCheck{
 		Title:      "Session end restarts cleanly; termination stays blocked",
-		Explain:    "Structural clauses: (R1) the dead-code check sets TERMINATE exactly on the 'not reading input' (READIN unset) edge, and Vm.Run consults it when code runs out; (R2) the engine marks a graceful end (exiting=true) only behind 'no code left' AND the DIRTY flag test, Flush runs the engine reset on every non-error path on which exiting may be set, and the reset unwinds State and cache in pairs (Up/Pop), restarts the state and clears TERMINATE and DIRTY on every success path; (R3) when no code is pending, init injects MOVE <configured root> as the code to run; (R4) blocked stays blocked: in exec the remaining code is only recorded behind the TERMINATE-unset edge after the run (a terminated run is never classified as a graceful end), Run dispatches nothing without passing the TERMINATE gate, and constant resets of TERMINATE exist only behind Run's own test and in the session-restart path; (R5) the reset path writes flag bytes only as 'byte 0 := 0' or through the constant resets, so client flags (8 and up) are kept; (R6) Finish stores what the request left: every return of Finish passes Persister.Save, the initd==false edge or the no-persister edge - no other condition may skip the save, in particular not one that holds exactly after the unwind of a graceful end (added after seeded change C20-F).",
+		Explain:    "Structural clauses: (R1) the dead-code check sets TERMINATE exactly on the 'not reading input' (READIN unset) edge, and Vm.Run consults it when code runs out; (R2) the engine marks a graceful end (exiting=true) only behind 'no code left' AND the DIRTY flag test, Flush runs the engine reset on every non-error path on which exiting may be set, and the reset unwinds State and cache in pairs (Up/Pop), restarts the state and clears TERMINATE and DIRTY on every success path; (R3) when no code is pending, init injects MOVE <configured root> as the code to run; (R4) blocked stays blocked: in exec the remaining code is only recorded behind the TERMINATE-unset edge after the run (a terminated run is never classified as a graceful end), Run dispatches nothing without passing the TERMINATE gate, and constant resets of TERMINATE exist only behind Run's own test and in the session-restart path, and no code outside package state stores to the flag bit field (a migration or copy of the field can drop TERMINATE; added after seeded change C20-H); (R5) the reset path writes flag bytes only as 'byte 0 := 0' or through the constant resets, so client flags (8 and up) are kept; (R6) Finish stores what the request left: every return of Finish passes Persister.Save, the initd==false edge or the no-persister edge - no other condition may skip the save, in particular not one that holds exactly after the unwind of a graceful end (added after seeded change C20-F); (R7) the destructive read of the last loaded value (Cache.Last) is not called - directly or through calls - on a path that leads to the call whose result the engine keeps as the exit value, so a debug hook or log line cannot empty the final page (added after seeded change C20-G).",
 		NotDecided: "what later requests output over histories and back ends; that the restart point equals the application's intended entry node (it is the configured root).",
 		Run:        runC20,
 	})
@@ -25,6 +25,7 @@ func runC20(w *core.World, r *core.Report) {
 	r.Rule("R4", "blocked stays blocked: TERMINATE test between run and setCode; gate in Run; who may clear TERMINATE")
 	r.Rule("R6", "Finish saves whenever the engine was initialised and has a persister: every success return passes Persister.Save, the initd==false edge or the no-persister edge")
 	r.Rule("R5", "the reset path keeps client flags")
+	r.Rule("R7", "the last loaded value is not consumed before the engine takes it as the exit value")
 
 	fTerm, ok1 := constOf(w, r, "state", "FLAG_TERMINATE")
 	fRead, ok2 := constOf(w, r, "state", "FLAG_READIN")
@@ -32,6 +33,7 @@ func runC20(w *core.World, r *core.Report) {
 	if !(ok1 && ok2 && ok3) {
 		return
 	}
+	checkExitValueNotConsumedEarlier(w, r, "R7")
 	run := anchor(w, r, "vm", "(*Vm).Run")
 	roles := resolveEngineRoles(w)
 	labels := roleLabels(w, r)
@@ -282,6 +284,18 @@ func runC20(w *core.World, r *core.Report) {
 		}
 	}
 	r.Floor("R4", "constant TERMINATE resets", nreset, 2)
+	// ... and nothing outside package state writes the bit field directly (same rule as C06 R3):
+	// replacing or rewriting the field drops TERMINATE without passing ResetFlag
+	for _, fn := range w.LibFuncs {
+		if core.PkgOf(fn) == "state" {
+			continue
+		}
+		for _, in := range allInstrs(fn) {
+			if st, ok := in.(*ssa.Store); ok && addrIsStateFlags(st.Addr) {
+				r.Bad("R4", label(labels, fn)+": store to State.Flags", st.Pos(), "the flag bit field is written outside package state: TERMINATE can be dropped without a ResetFlag call, which unblocks a terminated session")
+			}
+		}
+	}
 
 	// ---- R5 -----------------------------------------------------------------------------------
 	if resetFn != nil {
